@@ -1006,10 +1006,23 @@ pub fn t_scope(a: &[i64]) -> Val {
         name2.as_str().into(),
         As::from(vec![A::integer_fn("size", 24), A::integer_fn("align", 4)]),
     )];
-    if a[3] != 0 {
+    if a[3] == 1 {
         b_ext.extend(ext(12));
     }
-    mods.push((M::new().with_extern_types(b_ext), "b"));
+    let mut mb = M::new().with_extern_types(b_ext);
+    if a[3] == 2 {
+        // def_b == 2: b's definition is a *private* type of the same size and alignment (visibility plays no part in name resolution)
+        mb = mb.with_definitions([ID::new(
+            (V::Private, name),
+            TD::new([
+                TS::field((V::Public, "p0"), T::ident("u32")),
+                TS::field((V::Public, "p1"), T::ident("u32")),
+                TS::field((V::Public, "p2"), T::ident("u32")),
+            ])
+            .with_attributes([A::align(4)]),
+        )]);
+    }
+    mods.push((mb, "b"));
     if a[4] != 0 {
         mods.push((M::new().with_extern_types(ext(16)), "x::y"));
     } else {
